@@ -76,6 +76,11 @@ var c08Signature = []byte("NTLMSSP\x00")
 type c08 struct {
 	*Ctx
 	w *prove.World
+	// loopGuards: the error-exit tests of the counted table loops of the builder
+	// being analysed (for _, f := range fields { if len(f) > 0xFFFF { return … } })
+	loopGuards []codec.LoopGuard
+	nd         int // NOT DECIDED entities so far (c08_complete.go)
+	builderND  map[string]bool
 }
 
 func (c *c08) fname(fn *ssa.Function) string { return c.P.FuncName(fn) }
@@ -98,7 +103,8 @@ func runC08(cx *Ctx) {
 		"R3 (character set): on the paths where the Unicode test is true every name payload is produced by utf16.EncodeUTF16LE of the right parameter (optionally upper-cased), on the other paths by a []byte(string) conversion and never by EncodeUTF16LE — directly or in a shared encoding helper whose own branches on the test are followed; NEGOTIATE sets exactly UNICODE resp. OEM on those paths (also when the flags are assembled by a helper); AUTHENTICATE tests NTLMSSP_NEGOTIATE_UNICODE on challenge.NegotiateFlags and echoes that same field. " +
 		"R4 (parsers): ParseChallengeMessage moves the MS-NLMP CHALLENGE fields (signature 0..8 compared with NTLM_SIGNATURE by bytes.Equal / bytes.HasPrefix / string comparison, type 8 = NTLM_CHALLENGE enforced, TargetNameFields 12, flags 20, server challenge 24..32, reserved 32..40, TargetInfoFields 40, version 48..56) little-endian into the struct it returns; each payload is data[Offset : Offset+Len] with both taken from that descriptor — inline or in a payload helper (up to two levels, integer accessors included, nested windows composed), read at its call site — and the slice proved in bounds by E1 from the dominating guard (so the guard tested the very values sliced); ParseTargetInfo walks AvId 2LE, AvLen 2LE, value[AvLen], advances by 4+AvLen (an integer offset or a re-sliced tail), stores the value under AvId and stops at MsvAvEOL. " +
 		"R5 (SPNEGO framing): encodeLength returns one byte for < 128 and otherwise ceil(bits/8) bytes most-significant first (octet count by a shift loop, (bits.Len+7)/8 or a ladder of range tests proved by E1; octets by a fill loop or the tail of an 8-byte big-endian image); CreateNegTokenInit/Resp — directly or through a shared framing helper — emit 0x60, then the short form or 0x80|n followed by encodeLength's n bytes (alternatively the marker iff >= 128 followed on both paths by encodeLength, or a length helper returning those alternatives), of exactly the combined length of the two DER blobs that follow; ParseNegTokenResp/ExtractNTLMToken — directly or through a header helper whose error is checked — check 0x60 and skip 2+(b1&0x7F) bytes when b1&0x80 is set, else 2. " +
-		"IDIOMS: a builder rewritten into a shape outside those lists (a loop whose trip count is not a constant of its own test or that is left from its body, writes that overlap or do not tile a buffer, a helper with several returns of different widths, an octet count of another form) is reported UNDECIDED, never passed. " +
+		"ALSO READ: a running payload offset kept in a captured variable or a cursor struct and handed out by a closure / method (the cell's operations are replayed symbolically in dominance order), an offset table filled by a counted loop and read back by constant index, a decoded descriptor carried in a struct value or returned as several results (a field load denotes the one value stored there; helper results are read in their activation), a message accumulated by a local writer object with append-only methods, guards written as a counted loop over a table of the payloads or moved into a validating helper (error or bool verdict, read at its call site), NTLM_SIGNATURE as a byte literal, the Unicode test in a predicate, the v1/v2 response dispatch in a helper. " +
+		"COMPLETENESS BEFORE VERDICT: a violation is reported only for something observed in a completely extracted flow (a wrong byte order, offset, width, constant, producer, a swapped field, overlapping / truncated / non-tiling writes, a header of variable size, a guard read in full that is too weak or skips a row, a conversion whose operand has no bound although nothing that could establish one was left unread). When the data a rule reasons about is handed to code that was not followed (an in-module function or closure that can reject it, a cursor object, a callback), or has a shape that is not read (a loop that is not counted, several success returns, an unresolved term in an offset), the entity is recorded as OK 'NOT DECIDED — <what escaped and where>' with a run note, its instances are credited to the floors, and no violation is raised; a missing anchor, a type-check failure or a panic of the checker still fails. " +
 		"NOT DECIDED — the DER produced/consumed by encoding/asn1 (so the SPNEGO round trip for all token lengths, including the empty token, is not established), that a parsed CHALLENGE equals what a peer sent beyond the byte-lane map above, the numeric content of the responses (C02) and of EncodeUTF16LE (C01), the OEM code page, and receivers' treatment of zero-length fields."
 	r.Assumptions = append(r.Assumptions,
 		"go/ssa of x/tools v0.50.0 and go/types are trusted; encoding/binary PutUintN/UintN/AppendUintN write/read N/8 bytes in the stated order; append(s, t...) yields s followed by t; bytes.Buffer.Write* append",
@@ -181,7 +187,7 @@ func (c *c08) signatureGlobal() *ssa.Global {
 	}
 	bs, ok := codec.GlobalConstBytes(g)
 	if !ok {
-		c.R.Undecided(rule, construct, c.pos(g.Pos()), "NTLM_SIGNATURE is not initialised exactly once from a constant string")
+		c.notDecided(rule, construct, c.pos(g.Pos()), "NTLM_SIGNATURE is not initialised exactly once from a constant string or byte literal: its content is not read off")
 		return g
 	}
 	if !bytes.Equal(bs, c08Signature) {
@@ -199,13 +205,13 @@ func (c *c08) signatureGlobal() *ssa.Global {
 						return g
 					}
 					if x.Val == ssa.Value(g) {
-						c.R.Undecided(rule, construct, c.ipos(in), "the address of NTLM_SIGNATURE is stored in "+c.fname(fn))
+						c.notDecided(rule, construct, c.ipos(in), "the address of NTLM_SIGNATURE is stored in "+c.fname(fn)+"; writes through it are not followed")
 						return g
 					}
 				case *ssa.UnOp:
 					if x.Op == token.MUL && x.X == ssa.Value(g) {
 						if why := c08ReadOnlyUses(x); why != "" {
-							c.R.Undecided(rule, construct, c.ipos(in), "in "+c.fname(fn)+" the loaded NTLM_SIGNATURE slice "+why)
+							c.notDecided(rule, construct, c.ipos(in), "in "+c.fname(fn)+" the loaded NTLM_SIGNATURE slice "+why+"; whether that writes it is not followed")
 							return g
 						}
 					}
@@ -216,6 +222,8 @@ func (c *c08) signatureGlobal() *ssa.Global {
 	c.R.OK(rule, construct, c.pos(g.Pos()), "initialised once to \"NTLMSSP\\0\"; no assignment and no element store in the module")
 	return g
 }
+
+var c08ReadOnlyDepth int
 
 // c08ReadOnlyUses: slice value v is only read (append source, comparison, copy source, len).
 func c08ReadOnlyUses(v ssa.Value) string {
@@ -244,8 +252,30 @@ func c08ReadOnlyUses(v ssa.Value) string {
 			}
 			if f := cc.StaticCallee(); f != nil {
 				switch f.String() {
-				case "bytes.Equal", "bytes.HasPrefix", "bytes.Compare", "(*bytes.Buffer).Write":
+				case "bytes.Equal", "bytes.HasPrefix", "bytes.Compare", "(*bytes.Buffer).Write", "(*strings.Builder).Write", "bytes.Clone", "slices.Clone", "bytes.Contains", "bytes.Index":
 					continue
+				}
+				// a function with a body: what it does with the parameter the slice is bound to
+				if f.Blocks != nil && !cc.IsInvoke() && c08ReadOnlyDepth < 2 {
+					ok := true
+					for i, a := range cc.Args {
+						if a != v {
+							continue
+						}
+						if i >= len(f.Params) {
+							ok = false
+							break
+						}
+						c08ReadOnlyDepth++
+						why := c08ReadOnlyUses(f.Params[i])
+						c08ReadOnlyDepth--
+						if why != "" {
+							ok = false
+						}
+					}
+					if ok {
+						continue
+					}
 				}
 			}
 			return "is passed to a call that may write it"
@@ -319,7 +349,28 @@ func (c *c08) builder(spec c08Msg, sig *ssa.Global) *c08Built {
 		return nil
 	}
 	var res *c08Built
-	c.guard("R1.layout", name, c.pos(fn.Pos()), func() { res = c.builder1(spec, sig, fn, name) })
+	nRole := 0
+	for _, d := range spec.descs {
+		if d.result >= 0 {
+			nRole++
+		}
+	}
+	nField := 2 + 3*len(spec.descs)
+	if spec.micOff >= 0 {
+		nField++
+	}
+	nd0, bad0 := c.nd, c.violations()
+	c.entity(map[string]int{"R1.layout": 1, "R1.signature": 1, "R1.message-type": 1, "R1.field": nField, "R1.header-size": 1,
+		"R2.desc-len": len(spec.descs), "R2.desc-offset": len(spec.descs), "R2.desc-narrow": len(spec.descs), "R2.desc-role": nRole, "R2.payload-cover": 1},
+		func() {
+			c.guard("R1.layout", name, c.pos(fn.Pos()), func() { res = c.builder1(spec, sig, fn, name) })
+		})
+	if c.nd > nd0 || (res == nil && c.violations() > bad0) {
+		if c.builderND == nil {
+			c.builderND = map[string]bool{}
+		}
+		c.builderND[spec.fn] = true
+	}
 	return res
 }
 
@@ -328,26 +379,75 @@ func (c *c08) builder1(spec c08Msg, sig *ssa.Global, fn *ssa.Function, name stri
 	st := codec.NewStreamer(fn, c.P.InModule)
 	rets := st.Returns()
 	if len(rets) != 1 {
-		r.Undecided("R1.layout", name, c.pos(fn.Pos()), fmt.Sprintf("%d success returns (expected exactly one message-producing return)", len(rets)))
+		c.notDecided("R1.layout", name, c.pos(fn.Pos()), fmt.Sprintf("the builder has %d success returns; the message is read off exactly one", len(rets)))
 		return nil
 	}
 	pieces := st.Stream(rets[0])
 	z := codec.NewSym()
 	fi := c.w.Info(fn)
 	z.LoadRep = fi.LoadRep
+	c.loopGuards = append(st.LoopGuards(), st.CallGuards()...)
+	if os.Getenv("C08_DEBUG") != "" {
+		for _, p := range pieces {
+			fmt.Fprintln(os.Stderr, "piece", p.String(), "why:", p.Why)
+		}
+	}
+	// Observed layout defects of a buffer all of whose writes were read: two writes
+	// cover the same bytes, or the writes leave a hole / end before the buffer does.
+	for _, p := range pieces {
+		if p.Kind == "bytes" && (strings.Contains(p.Why, "do not tile the buffer") || strings.Contains(p.Why, "do not fill the buffer") || strings.Contains(p.Why, "overlapping writes") || strings.Contains(p.Why, "a copy truncates its source")) && p.Width < 0 {
+			r.Fail("R1.layout", name, c.ipos(p.At), "the message buffer is written inconsistently: "+p.Why+" (every write to it was read; fields overlap or leave a hole)")
+			return nil
+		}
+	}
 	placed, total, why := c.place(z, pieces)
 	if why != "" {
+		// Observed, not unreadable: within the fixed part a join of alternatives of
+		// different constant widths (a field emitted on one path and absent on
+		// another) — the fixed header then has no fixed size.
+		if k, isK := c08FormConst(total); isK && k < int64(spec.header) && len(placed) < len(pieces) {
+			if q := pieces[len(placed)]; q.Kind == "alt" && q.Width < 0 {
+				widths, allK := []string{}, true
+				for _, a := range q.Alts {
+					w, ok := codec.ConstWidth(a.Pieces)
+					if !ok {
+						allK = false
+					}
+					widths = append(widths, fmt.Sprint(w))
+				}
+				if allK {
+					r.OK("R1.layout", name, c.pos(fn.Pos()), codec.RenderPieces(pieces))
+					r.Fail("R1.header-size", name+": header size", c.ipos(q.At), fmt.Sprintf("at offset %d of the fixed part the message carries %s: alternatives of %s bytes, so the %d-byte fixed header has no fixed size and every later field moves", k, q.String(), strings.Join(widths, " | "), spec.header))
+					return nil
+				}
+			}
+		}
 		pos := c.pos(fn.Pos())
 		for _, p := range pieces {
 			if p.Kind == "unknown" && p.At != nil {
 				pos = c.ipos(p.At)
 			}
 		}
-		r.Undecided("R1.layout", name, pos, "the returned byte sequence cannot be read off: "+why+" (layout so far: "+codec.RenderPieces(pieces)+")")
+		c.notDecided("R1.layout", name, pos, "the returned byte sequence cannot be read off: "+why+" (layout so far: "+codec.RenderPieces(pieces)+")")
 		return nil
 	}
-	r.OK("R1.layout", name, c.pos(fn.Pos()), codec.RenderPieces(pieces))
 	r.Extra["layout "+spec.fn] = codec.RenderPieces(pieces)
+	// the fixed part (or all of it) hidden in a run whose content was not read off
+	// for a stated reason: one NOT DECIDED for the builder instead of one per field
+	for _, pl := range placed {
+		k, isK := c08FormConst(pl.off)
+		if !isK || k >= int64(spec.header) {
+			break
+		}
+		if pl.p.Width < 0 {
+			if pl.p.Kind == "bytes" && pl.p.Why != "" {
+				c.notDecided("R1.layout", name, c.ipos(pl.p.At), fmt.Sprintf("from offset %d on the message is the run %s, whose content is not read off: %s", k, pl.p.String(), pl.p.Why))
+				return nil
+			}
+			break
+		}
+	}
+	r.OK("R1.layout", name, c.pos(fn.Pos()), codec.RenderPieces(pieces))
 
 	// split into the constant-offset fixed part and the payload
 	fixed := map[int64]*codec.Piece{}
@@ -393,6 +493,7 @@ func (c *c08) builder1(spec c08Msg, sig *ssa.Global, fn *ssa.Function, name stri
 		return nil
 	}
 
+	var deferred []func(decided bool)
 	at := func(rule, what string, off, width int) *codec.Piece {
 		construct := name + ": " + what
 		p := fixed[int64(off)]
@@ -403,15 +504,40 @@ func (c *c08) builder1(spec c08Msg, sig *ssa.Global, fn *ssa.Function, name stri
 		}
 		if p == nil {
 			if q := covering(int64(off)); q != nil && (q.Kind == "bytes" || q.Kind == "nested") {
-				r.Undecided(rule, construct, c.ipos(q.At), fmt.Sprintf("offset %d lies inside %s, whose content cannot be read off", off, q.String()))
+				if strings.Contains(q.Why, "overlapping writes") {
+					// observed: two writes into the header buffer cover the same bytes
+					r.Fail(rule, construct, c.ipos(q.At), fmt.Sprintf("offset %d lies inside %s: %s (a later write clobbers an earlier field)", off, q.String(), q.Why))
+					return nil
+				}
+				c.notDecided(rule, construct, c.ipos(q.At), fmt.Sprintf("offset %d lies inside %s, whose content cannot be read off", off, q.String()))
 				return nil
 			}
-			r.Fail(rule, construct, c.pos(fn.Pos()), fmt.Sprintf("no field starts at offset %d of the fixed header (MS-NLMP places %s there); header layout: %s", off, what, codec.RenderPieces(pieces)))
+			msg := fmt.Sprintf("no field starts at offset %d of the fixed header (MS-NLMP places %s there); header layout: %s", off, what, codec.RenderPieces(pieces))
+			if int64(off) >= fixedEnd && len(payload) > 0 {
+				// The offset lies in or behind the first variable-length run. If that run
+				// is a payload some descriptor designates, the fixed part really ends
+				// early; if it is a run of unknown content (the message accumulated in an
+				// object that was not followed), the header is hidden inside it. Decided
+				// once the descriptors have been matched.
+				deferred = append(deferred, func(decided bool) {
+					if decided {
+						r.Fail(rule, construct, c.pos(fn.Pos()), msg)
+					} else {
+						c.notDecided(rule, construct, c.pos(fn.Pos()), fmt.Sprintf("offset %d (%s) lies in or behind the variable-length run %s, which no descriptor designates and whose content is not read off", off, what, payload[0].p.String()))
+					}
+				})
+				return nil
+			}
+			r.Fail(rule, construct, c.pos(fn.Pos()), msg)
 			return nil
 		}
 		if p.Width != width {
+			if (p.Kind == "bytes" || p.Kind == "nested") && strings.Contains(p.Why, "overlapping writes") {
+				r.Fail(rule, construct, c.ipos(p.At), fmt.Sprintf("offset %d starts %s: %s (a later write clobbers an earlier field)", off, p.String(), p.Why))
+				return nil
+			}
 			if p.Kind == "bytes" || p.Kind == "nested" {
-				r.Undecided(rule, construct, c.ipos(p.At), fmt.Sprintf("offset %d starts %s, whose content cannot be read off", off, p.String()))
+				c.notDecided(rule, construct, c.ipos(p.At), fmt.Sprintf("offset %d starts %s, whose content cannot be read off", off, p.String()))
 				return nil
 			}
 			r.Fail(rule, construct, c.ipos(p.At), fmt.Sprintf("the field at offset %d is %d bytes wide, MS-NLMP %s is %d", off, p.Width, what, width))
@@ -430,7 +556,7 @@ func (c *c08) builder1(spec c08Msg, sig *ssa.Global, fn *ssa.Function, name stri
 			return nil
 		}
 		if p.Kind != "int" {
-			r.Undecided(rule, construct, c.ipos(p.At), fmt.Sprintf("offset %d holds %s, which cannot be read as a %d-byte integer", off, p.String(), width))
+			c.notDecided(rule, construct, c.ipos(p.At), fmt.Sprintf("offset %d holds %s, which cannot be read as a %d-byte integer", off, p.String(), width))
 			return nil
 		}
 		if p.Order != "LE" {
@@ -450,6 +576,10 @@ func (c *c08) builder1(spec c08Msg, sig *ssa.Global, fn *ssa.Function, name stri
 			r.OK("R1.signature", construct, c.ipos(p.At), "bytes 0..8 are the NTLM_SIGNATURE global")
 		case (p.Kind == "const" || p.Kind == "global") && bytes.Equal(p.Const, c08Signature):
 			r.OK("R1.signature", construct, c.ipos(p.At), "bytes 0..8 are the constant \"NTLMSSP\\0\"")
+		case p.Kind == "bytes" || p.Kind == "nested" || p.Kind == "alt" || (p.Kind == "global" && p.Const == nil):
+			// a value whose content was not read off (a parameter of a shared header
+			// helper, another package variable …)
+			c.notDecided("R1.signature", construct, c.ipos(p.At), "bytes 0..8 are "+p.String()+", whose content is not read off")
 		default:
 			r.Fail("R1.signature", construct, c.ipos(p.At), "bytes 0..8 are "+p.String()+", not the NTLMSSP signature")
 		}
@@ -466,7 +596,7 @@ func (c *c08) builder1(spec c08Msg, sig *ssa.Global, fn *ssa.Function, name stri
 		case want.Int64() != spec.msgType:
 			r.Fail("R1.message-type", construct, c.ipos(p.At), fmt.Sprintf("%s = %s, MS-NLMP value is %d", spec.typeConst, want, spec.msgType))
 		case !isK:
-			r.Fail("R1.message-type", construct, c.ipos(p.At), "MessageType is not a constant")
+			c.notDecided("R1.message-type", construct, c.ipos(p.At), "the MessageType written is "+pv.Name()+", a value that does not resolve to a constant")
 		case got.Cmp(want) != 0:
 			r.Fail("R1.message-type", construct, c.ipos(p.At), fmt.Sprintf("MessageType written is %s, must be %s = %d", got, spec.typeConst, spec.msgType))
 		default:
@@ -494,6 +624,8 @@ func (c *c08) builder1(spec c08Msg, sig *ssa.Global, fn *ssa.Function, name stri
 		if p := at("R1.field", "MIC", spec.micOff, 16); p != nil {
 			if p.Kind == "zero" || p.Kind == "bytes" {
 				r.OK("R1.field", name+": MIC", c.ipos(p.At), "16 bytes at 72 ("+p.String()+")")
+			} else if p.Kind == "nested" || p.Kind == "alt" || p.Kind == "global" {
+				c.notDecided("R1.field", name+": MIC", c.ipos(p.At), "the 16 bytes at 72 are "+p.String()+", whose content is not read off")
 			} else {
 				r.Fail("R1.field", name+": MIC", c.ipos(p.At), "the 16 bytes at 72 are "+p.String())
 			}
@@ -509,6 +641,15 @@ func (c *c08) builder1(spec c08Msg, sig *ssa.Global, fn *ssa.Function, name stri
 			first = k
 		}
 		switch {
+		case (fixedEnd != int64(spec.header) || first != int64(spec.header)) && fixedEnd < int64(spec.header) && len(payload) > 0:
+			msg := fmt.Sprintf("the fixed fields end at %d and the payload starts at %d; MS-NLMP fixed part is %d bytes", fixedEnd, first, spec.header)
+			deferred = append(deferred, func(decided bool) {
+				if decided {
+					r.Fail("R1.header-size", construct, c.pos(fn.Pos()), msg)
+				} else {
+					c.notDecided("R1.header-size", construct, c.pos(fn.Pos()), fmt.Sprintf("the constant-offset part read off ends at %d, followed by the run %s, which no descriptor designates and whose content is not read off", fixedEnd, payload[0].p.String()))
+				}
+			})
 		case fixedEnd != int64(spec.header) || first != int64(spec.header):
 			r.Fail("R1.header-size", construct, c.pos(fn.Pos()), fmt.Sprintf("the fixed fields end at %d and the payload starts at %d; MS-NLMP fixed part is %d bytes", fixedEnd, first, spec.header))
 		default:
@@ -531,6 +672,9 @@ func (c *c08) builder1(spec c08Msg, sig *ssa.Global, fn *ssa.Function, name stri
 	if len(payload) == 0 {
 		boundaries = []lin.Form{total}
 	}
+	skipped := map[string]bool{} // descriptors whose payload was not identified
+	offUndecided := false
+	var unmatched []func(decided bool)
 	for _, d := range spec.descs {
 		lenP := intAt("R1.field", d.name+".Len", d.off, 2)
 		maxP := intAt("R1.field", d.name+".MaxLen", d.off+2, 2)
@@ -552,7 +696,21 @@ func (c *c08) builder1(spec c08Msg, sig *ssa.Global, fn *ssa.Function, name stri
 		P, pfr, _, _ := c08LenArg(lenP.Val, lenP.Frame)
 		lf, mf := z.OfIn(lenP.Val, lenP.Frame), z.OfIn(maxP.Val, maxP.Frame)
 		if P == nil {
-			r.Undecided("R2.desc-len", construct, c.ipos(lenP.At), "Len is not of the form uintN(len(P)): "+z.String(lf))
+			// n := len(P) kept in a variable, a length handed down through a helper …:
+			// the form says which payload it is
+			if ts := lf.Terms(); len(ts) == 1 && lf.C.Sign() == 0 && lf.Coef[ts[0]].IsInt64() && lf.Coef[ts[0]].Int64() == 1 {
+				if v, isLen := z.TermValue(ts[0]); isLen {
+					P, pfr = v, z.TermFrame(ts[0])
+				}
+			}
+		}
+		if P == nil {
+			if op := c08OpaqueTerm(z, lf); op != "" {
+				c.notDecided("R2.desc-len", construct, c.ipos(lenP.At), "Len = "+z.String(lf)+": "+op+" is not resolved to the length of a payload")
+			} else {
+				r.Fail("R2.desc-len", construct, c.ipos(lenP.At), "Len = "+z.String(lf)+" is not the length of one payload")
+			}
+			skipped[d.name] = true
 			continue
 		}
 		if pfr != nil {
@@ -560,15 +718,21 @@ func (c *c08) builder1(spec c08Msg, sig *ssa.Global, fn *ssa.Function, name stri
 			if pfr.Callee != nil {
 				where = "helper " + pfr.Callee.Name()
 			}
-			r.Undecided("R2.desc-len", construct, c.ipos(lenP.At), "the payload whose length is written is a value local to "+where)
+			c.notDecided("R2.desc-len", construct, c.ipos(lenP.At), "the payload whose length is written is a value local to "+where)
+			skipped[d.name] = true
 			continue
 		}
-		PM, _, _, _ := c08LenArg(maxP.Val, maxP.Frame)
 		switch {
-		case !lf.Equal(mf) || PM == nil:
+		case !lf.Equal(mf):
+			if op := c08OpaqueTerm(z, mf); op != "" {
+				c.notDecided("R2.desc-len", construct, c.ipos(maxP.At), "MaxLen = "+z.String(mf)+": "+op+" is not resolved to the length of a payload")
+				skipped[d.name] = true
+				continue
+			}
 			r.Fail("R2.desc-len", construct, c.ipos(maxP.At), fmt.Sprintf("Len = %s but MaxLen = %s (must both be the length of the same payload)", z.String(lf), z.String(mf)))
 		case !lf.Equal(z.LenOf(P)):
-			r.Undecided("R2.desc-len", construct, c.ipos(lenP.At), "Len form "+z.String(lf)+" is not len(P)")
+			c.notDecided("R2.desc-len", construct, c.ipos(lenP.At), "Len form "+z.String(lf)+" is not len(P)")
+			skipped[d.name] = true
 			continue
 		default:
 			r.OK("R2.desc-len", construct, c.ipos(lenP.At), "Len = MaxLen = "+z.String(lf))
@@ -580,6 +744,21 @@ func (c *c08) builder1(spec c08Msg, sig *ssa.Global, fn *ssa.Function, name stri
 
 		// R2 desc-offset: locate P among the appended payload pieces
 		of := z.OfIn(offP.Val, offP.Frame)
+		if op := c08OpaqueTerm(z, of); op != "" {
+			// the offset depends on a quantity the symbolic evaluation did not resolve
+			// (a helper result, a value read back from memory, a loop-carried
+			// variable): nothing about it was observed
+			why := ""
+			if call, isCall := c08Strip(offP.Val).(*ssa.Call); isCall {
+				why = z.CellNote(call)
+			}
+			if why != "" {
+				why = " (" + why + ")"
+			}
+			c.notDecided("R2.desc-offset", construct, c.ipos(offP.At), "BufferOffset = "+z.String(of)+": "+op+" is not resolved to lengths of payloads"+why)
+			offUndecided = true
+			continue
+		}
 		S := st.Stream(P)
 		if len(S) == 0 {
 			// empty payload: the offset must be one of the piece boundaries (in bounds)
@@ -604,7 +783,13 @@ func (c *c08) builder1(spec c08Msg, sig *ssa.Global, fn *ssa.Function, name stri
 		}
 		switch {
 		case len(hits) == 0:
-			r.Fail("R2.desc-offset", construct, c.ipos(offP.At), fmt.Sprintf("the payload %s whose length the descriptor carries is never appended after the header", z.String(lf)))
+			unmatched = append(unmatched, func(decided bool) {
+				if decided {
+					r.Fail("R2.desc-offset", construct, c.ipos(offP.At), fmt.Sprintf("the payload %s whose length the descriptor carries is never appended after the header", z.String(lf)))
+				} else {
+					c.notDecided("R2.desc-offset", construct, c.ipos(offP.At), fmt.Sprintf("the payload %s whose length the descriptor carries is not among the appended runs, and a run of another origin is appended: the two could not be identified with each other", z.String(lf)))
+				}
+			})
 			continue
 		case len(hits) > 1:
 			r.Fail("R2.desc-offset", construct, c.ipos(payload[hits[1]].p.At), fmt.Sprintf("the payload of %s is appended %d times; a descriptor can designate only one range", d.name, len(hits)))
@@ -621,7 +806,8 @@ func (c *c08) builder1(spec c08Msg, sig *ssa.Global, fn *ssa.Function, name stri
 			}
 		}
 		if !contiguous {
-			r.Undecided("R2.desc-offset", construct, c.ipos(offP.At), "the payload's pieces are not appended contiguously")
+			c.notDecided("R2.desc-offset", construct, c.ipos(offP.At), "the payload's pieces are not appended contiguously")
+			offUndecided = true
 			continue
 		}
 		des = append(des, designated{d.name, h, len(S)})
@@ -640,10 +826,11 @@ func (c *c08) builder1(spec c08Msg, sig *ssa.Global, fn *ssa.Function, name stri
 				cover[d.first+k]++
 			}
 		}
-		bad := ""
+		bad, undesignated := "", false
 		for i, n := range cover {
 			if n == 0 {
 				bad = fmt.Sprintf("the run %s appended at %s is not designated by any descriptor", payload[i].p.String(), z.String(payload[i].off))
+				undesignated = true
 				break
 			}
 			if n > 1 {
@@ -651,9 +838,26 @@ func (c *c08) builder1(spec c08Msg, sig *ssa.Global, fn *ssa.Function, name stri
 				break
 			}
 		}
-		if bad != "" {
+		// fields looked for in or behind the first variable-length run
+		hidden := len(deferred) > 0 && len(cover) > 0 && cover[0] == 0
+		for _, f := range deferred {
+			f(!hidden)
+		}
+		if hidden {
+			offUndecided = true
+		}
+		// a descriptor whose payload is not found among the runs AND a run that no
+		// descriptor designates: most likely the same bytes under two identities
+		// (a copy, a re-encoding) — the match is incomplete, nothing was observed
+		for _, f := range unmatched {
+			f(!undesignated)
+		}
+		switch {
+		case undesignated && (len(unmatched) > 0 || len(skipped) > 0 || offUndecided):
+			c.notDecided("R2.payload-cover", construct, c.pos(fn.Pos()), bad+"; not every descriptor's payload could be identified (see R2.desc-len / R2.desc-offset)")
+		case bad != "":
 			r.Fail("R2.payload-cover", construct, c.pos(fn.Pos()), bad)
-		} else {
+		default:
 			var order []string
 			sort.Slice(des, func(i, j int) bool { return des[i].first < des[j].first })
 			for _, d := range des {
@@ -672,35 +876,75 @@ func (c *c08) builder1(spec c08Msg, sig *ssa.Global, fn *ssa.Function, name stri
 			continue
 		}
 		construct := name + ": " + d.name
-		var bv *c08BranchView
-		leaves := bv.leaves(P)
-		bad := ""
-		for _, l := range leaves {
-			ex, ok := l.(*ssa.Extract)
-			if !ok {
-				bad = "a value that is not a result of calculateNTLMv?Response"
-				break
-			}
-			_, f := c08StaticCall(ex.Tuple)
-			if f == nil || (f != c.P.Func(c08NTLM, "", "calculateNTLMv2Response") && f != c.P.Func(c08NTLM, "", "calculateNTLMv1Response")) {
-				bad = "a result of a function other than calculateNTLMv1Response/calculateNTLMv2Response"
-				break
-			}
-			if ex.Index != d.result {
-				bad = fmt.Sprintf("result #%d of %s (the %s descriptor must carry result #%d)", ex.Index, f.Name(), d.name, d.result)
-				break
-			}
-		}
-		if len(leaves) == 0 {
-			bad = "nothing"
-		}
-		if bad != "" {
+		bad, nd := c.responseRole(P, d, 0)
+		switch {
+		case bad != "":
 			r.Fail("R2.desc-role", construct, c.pos(fn.Pos()), "the designated payload is "+bad)
-		} else {
+		case nd != "":
+			c.notDecided("R2.desc-role", construct, c.pos(fn.Pos()), "the designated payload is "+nd)
+		default:
 			r.OK("R2.desc-role", construct, c.pos(fn.Pos()), fmt.Sprintf("payload is result #%d of calculateNTLMv1Response/calculateNTLMv2Response on every path", d.result))
 		}
 	}
 	return built
+}
+
+// responseRole: every value that can flow into P is result #d.result of
+// calculateNTLMv1Response / calculateNTLMv2Response — directly, or as the same
+// result of an in-module helper that dispatches to them (up to two levels).
+// bad: a result of those functions at another index, or of none of them, was
+// observed; nd: the origin could not be followed.
+func (c *c08) responseRole(P ssa.Value, d c08Desc, depth int) (bad, nd string) {
+	v1 := c.P.Func(c08NTLM, "", "calculateNTLMv1Response")
+	v2 := c.P.Func(c08NTLM, "", "calculateNTLMv2Response")
+	var bv *c08BranchView
+	leaves := bv.leaves(P)
+	if len(leaves) == 0 {
+		return "nothing", ""
+	}
+	for _, l := range leaves {
+		if k, isK := l.(*ssa.Const); isK && k.Value == nil {
+			continue // the zero value on an error path
+		}
+		ex, ok := l.(*ssa.Extract)
+		if !ok {
+			return "", "a value that is not a result of a call: " + l.Name()
+		}
+		_, f := c08StaticCall(ex.Tuple)
+		switch {
+		case f != nil && (f == v1 || f == v2):
+			if ex.Index != d.result {
+				return fmt.Sprintf("result #%d of %s (the %s descriptor must carry result #%d)", ex.Index, f.Name(), d.name, d.result), ""
+			}
+		case f != nil && f.Blocks != nil && c.P.InModule(f) && depth < 2:
+			// a dispatching helper: the same result index of every return
+			n := 0
+			for _, b := range f.Blocks {
+				ret, isRet := b.Instrs[len(b.Instrs)-1].(*ssa.Return)
+				if !isRet || ex.Index >= len(ret.Results) {
+					continue
+				}
+				n++
+				b1, n1 := c.responseRole(ret.Results[ex.Index], d, depth+1)
+				if b1 != "" {
+					return b1 + " (in helper " + f.Name() + ")", ""
+				}
+				if n1 != "" {
+					return "", n1 + " (in helper " + f.Name() + ")"
+				}
+			}
+			if n == 0 {
+				return "", "a result of " + f.Name() + ", which never returns"
+			}
+		default:
+			name := "a dynamic call"
+			if f != nil {
+				name = f.Name()
+			}
+			return "", "a result of " + name + ", which is not followed"
+		}
+	}
+	return "", ""
 }
 
 func c08Forms(z *codec.Sym, fs []lin.Form) string {
@@ -729,6 +973,12 @@ func c08LenArg(v ssa.Value, fr *codec.Frame) (P ssa.Value, pfr *codec.Frame, con
 		case *ssa.Parameter:
 			if arg, pf, ok := fr.Bind(x); ok {
 				v, fr = arg, pf
+				continue
+			}
+		case *ssa.UnOp, *ssa.Field:
+			// a field of a descriptor struct value, a single-assignment cell
+			if e, ef := codec.Resolve(v, fr); e != v {
+				v, fr = e, ef
 				continue
 			}
 		}
@@ -762,6 +1012,13 @@ func (c *c08) narrowing(name, desc string, fn *ssa.Function, z *codec.Sym, piece
 					v, fr = arg, pf
 					continue
 				}
+			case *ssa.UnOp, *ssa.Field:
+				// the integer travels in a descriptor struct: the conversion happened
+				// where the struct was built
+				if e, ef := codec.Resolve(v, fr); e != v {
+					v, fr = e, ef
+					continue
+				}
 			}
 			break
 		}
@@ -791,9 +1048,10 @@ func (c *c08) narrowing(name, desc string, fn *ssa.Function, z *codec.Sym, piece
 			at, src, f2 = f2.Call, arg, pf
 		}
 		ctx := c.w.Info(at.Parent()).CtxBefore(at)
+		c.guardFacts(z, ctx, at)
 		sf := ctx.Lin(src)
 		proved := ctx.Prove(lin.LE(sf, lin.KB(max))) && ctx.Prove(lin.GE0(sf))
-		if !proved && fr != nil {
+		if !proved {
 			// The converted value lives in an inlined helper and/or in one iteration
 			// of an unrolled loop, where E1 (which sees the helper alone, and the
 			// loop body once for all iterations) knows nothing about it. Prove the
@@ -808,6 +1066,7 @@ func (c *c08) narrowing(name, desc string, fn *ssa.Function, z *codec.Sym, piece
 				}
 			}
 			ctx2 := c.w.Info(topAt.Parent()).CtxBefore(topAt)
+			c.guardFacts(z, ctx2, topAt)
 			if tf, ok := c08IterForm(z, ctx2, conv.X, fr, topAt); ok {
 				if ctx2.Prove(lin.LE(tf, lin.KB(max))) && ctx2.Prove(lin.GE0(tf)) {
 					proved = true
@@ -818,12 +1077,112 @@ func (c *c08) narrowing(name, desc string, fn *ssa.Function, z *codec.Sym, piece
 		}
 		if !proved {
 			q := z.String(z.OfIn(conv.X, fr))
+			// Completeness: the bound may be established by code that was not read —
+			// the payload, its length or a table holding it is handed to a function or
+			// closure that can reject it (returns bool / error or panics) and that is
+			// not one of the validating helpers read above.
+			if op := c08OpaqueTerm(z, z.OfIn(conv.X, fr)); op != "" {
+				// the quantity itself was not resolved (read back from memory, a helper
+				// result, a loop-carried value): nothing is known about its bound
+				c.notDecided("R2.desc-narrow", construct, c.ipos(conv), fmt.Sprintf("%s.%s = uint%d(%s): %s is not resolved to lengths of payloads, so no bound could be looked for", desc, what, bits, q, op))
+				return
+			}
+			if why := c.guardEscapes(z, conv, fr); why != "" {
+				c.notDecided("R2.desc-narrow", construct, c.ipos(conv), fmt.Sprintf("%s.%s = uint%d(%s): no bound was proved, but %s, which may establish it", desc, what, bits, q, why))
+				return
+			}
 			c.R.Add("R2.desc-narrow", construct, c.ipos(conv), report.Finding, fmt.Sprintf("%s.%s = uint%d(%s) is not guarded: a value above %s is silently truncated, so the descriptor no longer designates the bytes of its field (needs %s <= %s on every path to the conversion)", desc, what, bits, q, max, q, max),
 				map[string]any{"facts": ctx.FactStrings(lin.LE(sf, lin.KB(max)), 12)})
 			return
 		}
 	}
 	c.R.OK("R2.desc-narrow", construct, c.pos(fn.Pos()), "uint16(len) and uint32(offset) proved in range by E1")
+}
+
+// guardEscapes: a quantity converted at conv (activation fr) — a payload, its
+// length, a table it is stored in — flows, before the conversion, into code
+// that could reject it and that the guard extraction did not read.
+func (c *c08) guardEscapes(z *codec.Sym, conv *ssa.Convert, fr *codec.Frame) string {
+	var before ssa.Instruction = conv
+	for f := fr; f != nil; f = f.Parent {
+		if f.Iter == nil && f.Call != nil {
+			before = f.Call
+		}
+	}
+	read := map[*ssa.Function]bool{}
+	for _, g := range c.loopGuards {
+		if g.Via != nil {
+			read[g.Via.Common().StaticCallee()] = true
+		}
+	}
+	opts := c08FlowOpts{lengths: true, before: before, validators: true, ignore: func(f *ssa.Function) bool { return read[f] }}
+	form := z.OfIn(conv.X, fr)
+	for _, t := range form.Terms() {
+		v, _ := z.TermValue(t)
+		if v == nil {
+			continue
+		}
+		if _, isInstr := v.(ssa.Instruction); !isInstr {
+			if _, isParam := v.(*ssa.Parameter); !isParam {
+				continue
+			}
+		}
+		if why := c.flowsOut(v, opts); why != "" {
+			return why
+		}
+	}
+	return ""
+}
+
+// guardFacts adds to ctx what the guards of the counted table loops that have
+// run to their end before `at` established: in every iteration the test had
+// the outcome that stays in the loop, so the relation holds for the table
+// element (or other per-iteration quantity) of each iteration.
+func (c *c08) guardFacts(z *codec.Sym, ctx *prove.Ctx, at ssa.Instruction) {
+	for _, g := range c.loopGuards {
+		if g.Exit.Parent() != at.Parent() || !g.Exit.Dominates(at.Block()) {
+			continue
+		}
+		for _, fr := range g.Frames {
+			x, ok1 := c08IterForm(z, ctx, g.Cond.X, fr, at)
+			y, ok2 := c08IterForm(z, ctx, g.Cond.Y, fr, at)
+			if os.Getenv("C08_DEBUG") != "" {
+				fmt.Fprintln(os.Stderr, "guardFacts", g.Cond, g.Stay, ok1, ok2, z.String(z.OfIn(g.Cond.X, fr)))
+			}
+			if !ok1 || !ok2 {
+				continue
+			}
+			op := g.Cond.Op
+			if !g.Stay {
+				switch op {
+				case token.LSS:
+					op = token.GEQ
+				case token.LEQ:
+					op = token.GTR
+				case token.GTR:
+					op = token.LEQ
+				case token.GEQ:
+					op = token.LSS
+				case token.EQL:
+					op = token.NEQ
+				case token.NEQ:
+					op = token.EQL
+				}
+			}
+			switch op {
+			case token.LSS:
+				ctx.AddFact(lin.LT(x, y))
+			case token.LEQ:
+				ctx.AddFact(lin.LE(x, y))
+			case token.GTR:
+				ctx.AddFact(lin.GT(x, y))
+			case token.GEQ:
+				ctx.AddFact(lin.GE(x, y))
+			case token.EQL:
+				ctx.AddFact(lin.EQ(x, y)...)
+			}
+		}
+	}
 }
 
 // c08IterForm: the value of src in iteration activation fr as an E1 form at
@@ -900,9 +1259,91 @@ func c08HasNarrowing(v ssa.Value, fr *codec.Frame, d int) bool {
 			return c08HasNarrowing(x.X, fr, d+1) || c08HasNarrowing(x.Y, fr, d+1)
 		}
 		return false
-	case *ssa.Phi, *ssa.Parameter:
+	case *ssa.Call:
+		// a running-offset helper evaluated symbolically (codec/cells.go): its body
+		// must not narrow either
+		if _, isB := x.Common().Value.(*ssa.Builtin); isB {
+			return false
+		}
+		var f *ssa.Function
+		if mc, ok := x.Common().Value.(*ssa.MakeClosure); ok {
+			f, _ = mc.Fn.(*ssa.Function)
+		} else {
+			f = x.Common().StaticCallee()
+		}
+		if f == nil || f.Blocks == nil {
+			return false
+		}
+		for _, b := range f.Blocks {
+			for _, in := range b.Instrs {
+				if cv, ok := in.(*ssa.Convert); ok {
+					sb, ok1 := cv.X.Type().Underlying().(*types.Basic)
+					db, ok2 := cv.Type().Underlying().(*types.Basic)
+					if !ok1 || !ok2 || sb.Info()&types.IsInteger == 0 || db.Info()&types.IsInteger == 0 {
+						continue
+					}
+					if c08Bits(db) < c08Bits(sb) || (sb.Info()&types.IsUnsigned == 0) != (db.Info()&types.IsUnsigned == 0) && c08Bits(db) <= c08Bits(sb) {
+						return true
+					}
+				}
+			}
+		}
+		return false
+	case *ssa.Phi, *ssa.Parameter, *ssa.UnOp, *ssa.Field, *ssa.Index:
 		if e, ef := codec.Resolve(v, fr); e != v {
 			return c08HasNarrowing(e, ef, d+1)
+		}
+		// an element of an integer table (evaluated per iteration by codec/cells.go):
+		// none of the values stored into the table may narrow
+		if u, ok := v.(*ssa.UnOp); ok && u.Op == token.MUL {
+			if ia, ok := u.X.(*ssa.IndexAddr); ok && ia.X.Referrers() != nil {
+				for _, r := range *ia.X.Referrers() {
+					ia2, ok := r.(*ssa.IndexAddr)
+					if !ok || ia2.Referrers() == nil {
+						continue
+					}
+					for _, rr := range *ia2.Referrers() {
+						if st, ok := rr.(*ssa.Store); ok && st.Addr == ssa.Value(ia2) && c08ExprNarrows(st.Val, map[ssa.Value]bool{}, 0) {
+							return true
+						}
+					}
+				}
+			}
+		}
+	}
+	return false
+}
+
+// c08ExprNarrows: the integer expression v (through + − and every φ edge)
+// contains a narrowing or sign-changing conversion.
+func c08ExprNarrows(v ssa.Value, seen map[ssa.Value]bool, d int) bool {
+	if seen[v] {
+		return false
+	}
+	seen[v] = true
+	if d > 64 {
+		return true
+	}
+	switch x := v.(type) {
+	case *ssa.Convert:
+		sb, ok1 := x.X.Type().Underlying().(*types.Basic)
+		db, ok2 := x.Type().Underlying().(*types.Basic)
+		if !ok1 || !ok2 || sb.Info()&types.IsInteger == 0 || db.Info()&types.IsInteger == 0 {
+			return true
+		}
+		if c08Bits(db) < c08Bits(sb) || (sb.Info()&types.IsUnsigned == 0) != (db.Info()&types.IsUnsigned == 0) && c08Bits(db) <= c08Bits(sb) {
+			return true
+		}
+		return c08ExprNarrows(x.X, seen, d+1)
+	case *ssa.ChangeType:
+		return c08ExprNarrows(x.X, seen, d+1)
+	case *ssa.BinOp:
+		return c08ExprNarrows(x.X, seen, d+1) || c08ExprNarrows(x.Y, seen, d+1)
+	case *ssa.Phi:
+		for _, e := range x.Edges {
+			if c08ExprNarrows(e, seen, d+1) {
+				return true
+			}
 		}
 	}
 	return false
@@ -913,12 +1354,45 @@ func c08HasNarrowing(v ssa.Value, fr *codec.Frame, d int) bool {
 func (c *c08) versionPiece(name string, p *codec.Piece) {
 	construct := name + ": Version"
 	marshal := c.P.Func(c08Version, "Version", "Marshal")
-	ok := func(q *codec.Piece) bool {
-		return (q.Kind == "nested" && marshal != nil && q.Callee == marshal) || q.Kind == "zero"
+	var ok func(q *codec.Piece) bool
+	ok = func(q *codec.Piece) bool {
+		if (q.Kind == "nested" && marshal != nil && q.Callee == marshal) || q.Kind == "zero" {
+			return true
+		}
+		// a wrapper whose whole result is the marshalled version
+		return q.Kind == "nested" && len(q.Inner) == 1 && q.Inner[0].Width == q.Width && ok(q.Inner[0])
+	}
+	// opaque: content that was not read off (as opposed to content seen to be something else)
+	var opaque func(q *codec.Piece) bool
+	opaque = func(q *codec.Piece) bool {
+		switch q.Kind {
+		case "bytes", "global":
+			return q.Const == nil
+		case "nested":
+			for _, in := range q.Inner {
+				if opaque(in) {
+					return true
+				}
+			}
+			return len(q.Inner) == 0
+		case "alt":
+			for _, a := range q.Alts {
+				for _, in := range a.Pieces {
+					if opaque(in) {
+						return true
+					}
+				}
+			}
+		}
+		return false
 	}
 	switch {
 	case p.Kind == "alt":
 		for _, a := range p.Alts {
+			if len(a.Pieces) == 1 && !ok(a.Pieces[0]) && opaque(a.Pieces[0]) {
+				c.notDecided("R1.field", construct, c.ipos(p.At), "one alternative of the 8 version bytes is "+codec.RenderPieces(a.Pieces)+", whose content is not read off")
+				return
+			}
 			if len(a.Pieces) != 1 || !ok(a.Pieces[0]) {
 				c.R.Fail("R1.field", construct, c.ipos(p.At), "one alternative of the 8 version bytes is "+codec.RenderPieces(a.Pieces)+", expected version.Version.Marshal() or 8 zero bytes")
 				return
@@ -927,6 +1401,8 @@ func (c *c08) versionPiece(name string, p *codec.Piece) {
 		c.R.OK("R1.field", construct, c.ipos(p.At), "8 bytes: "+p.String())
 	case ok(p):
 		c.R.OK("R1.field", construct, c.ipos(p.At), "8 bytes: "+p.String())
+	case opaque(p):
+		c.notDecided("R1.field", construct, c.ipos(p.At), "the 8 version bytes are "+p.String()+", whose content is not read off")
 	default:
 		c.R.Fail("R1.field", construct, c.ipos(p.At), "the 8 version bytes are "+p.String()+", expected version.Version.Marshal() or 8 zero bytes")
 	}
@@ -953,7 +1429,7 @@ func (c *c08) versionLayout() {
 				st := codec.NewStreamer(fn, c.P.InModule)
 				rets := st.Returns()
 				if len(rets) != 1 {
-					c.R.Undecided(rule, construct, c.pos(fn.Pos()), "expected one success return")
+					c.notDecided(rule, construct, c.pos(fn.Pos()), fmt.Sprintf("%d success returns; the layout is read off exactly one", len(rets)))
 					return
 				}
 				ps := st.Stream(rets[0])
@@ -961,7 +1437,7 @@ func (c *c08) versionLayout() {
 				i := 0
 				for _, p := range ps {
 					if p.Kind == "unknown" || p.Width < 0 {
-						c.R.Undecided(rule, construct, c.ipos(p.At), "layout not readable: "+codec.RenderPieces(ps))
+						c.notDecided(rule, construct, c.ipos(p.At), "layout not readable: "+codec.RenderPieces(ps)+" "+p.Why)
 						return
 					}
 					if i >= len(spec) {
@@ -969,6 +1445,10 @@ func (c *c08) versionLayout() {
 					}
 					a := spec[i]
 					f := c08FieldOfValue(p, fn)
+					if f == "" && p.Kind != "zero" && p.Kind != "const" {
+						c.notDecided(rule, construct, c.ipos(p.At), fmt.Sprintf("offset %d holds %s, a value not traced to a field of the receiver", off, p.String()))
+						return
+					}
 					if off != a.off || p.Width != a.width || f != a.field || (a.order != "" && p.Order != a.order) {
 						c.R.Fail(rule, construct, c.ipos(p.At), fmt.Sprintf("offset %d holds %s of field %q; VERSION has %s (%d bytes %s) at %d", off, p.String(), f, a.field, a.width, a.order, a.off))
 						return
@@ -995,6 +1475,18 @@ func (c *c08) versionLayout() {
 		c.guard(rule, construct, c.pos(fn.Pos()), func() {
 			e := codec.NewExt(c.w, fn)
 			atoms := e.Decoded()
+			if len(atoms) < len(spec) && len(fn.Params) >= 2 {
+				// fewer fields than VERSION has: positively incomplete only if neither the
+				// receiver nor the input is handed to code that was not followed
+				why := c.flowsOut(fn.Params[0], c08FlowOpts{})
+				if why == "" {
+					why = c.flowsOut(fn.Params[1], c08FlowOpts{})
+				}
+				if why != "" {
+					c.notDecided(rule, construct, c.pos(fn.Pos()), "decoder fills "+codec.Render(atoms)+" directly, and "+why)
+					return
+				}
+			}
 			if len(atoms) != len(spec) {
 				c.R.Fail(rule, construct, c.pos(fn.Pos()), "decoder fills "+codec.Render(atoms)+"; VERSION has 5 fields")
 				return
